@@ -30,6 +30,98 @@ func (c *Ctx) hasGuard(n ast.Node, val bool, pred func(ast.Expr) bool) bool {
 	return false
 }
 
+// hasFlagGuard reports whether n is reached only under <desc>.<flag> being
+// true. desc is the descriptor expression the flag has to belong to (nil: any
+// expression of the named descriptor type). If desc is a parameter of the
+// enclosing declaration (a private helper the code was extracted into), the
+// obligation moves to the call sites: every call of the helper in its package
+// has to be guarded by the flag of the descriptor it passes (two levels).
+func (c *Ctx) hasFlagGuard(pkg *packages.Package, n ast.Node, desc ast.Expr, descType, flag string, depth int) bool {
+	info := pkg.TypesInfo
+	dk := ""
+	if desc != nil {
+		k, ok := exprKey(info, desc)
+		if !ok {
+			return false
+		}
+		dk = k
+	}
+	local := false
+	for _, gd := range c.GuardsDeep(n) {
+		if !gd.Val {
+			continue
+		}
+		s, ok := ast.Unparen(gd.Cond).(*ast.SelectorExpr)
+		if !ok || s.Sel.Name != flag {
+			continue
+		}
+		if desc == nil {
+			if isNamed(info.TypeOf(s.X), modPath+"/funcGen", descType) {
+				local = true
+			}
+		} else if k, ok := exprKey(info, s.X); ok && k == dk {
+			local = true
+		}
+	}
+	if local {
+		return true
+	}
+	if depth >= 2 {
+		return false
+	}
+	fd := c.EnclosingDecl(n)
+	if fd == nil || fd.Type.Params == nil {
+		return false
+	}
+	// which parameter carries the descriptor?
+	pidx := -1
+	i := 0
+	for _, fl := range fd.Type.Params.List {
+		for _, nm := range fl.Names {
+			obj := info.Defs[nm]
+			if obj != nil {
+				if desc != nil {
+					if id, ok := ast.Unparen(desc).(*ast.Ident); ok && info.ObjectOf(id) == obj {
+						pidx = i
+					}
+				} else if isNamed(obj.Type(), modPath+"/funcGen", descType) {
+					pidx = i
+				}
+			}
+			i++
+		}
+	}
+	if pidx < 0 {
+		return false
+	}
+	if id, ok := ast.Unparen(desc).(*ast.Ident); desc != nil && ok && countAssignments(info, fd.Body, info.ObjectOf(id)) > 0 {
+		return false // the parameter is reassigned inside the helper
+	}
+	fobj, _ := info.Defs[fd.Name].(*types.Func)
+	if fobj == nil {
+		return false
+	}
+	sites := 0
+	all := true
+	for _, f := range pkg.Syntax {
+		ast.Inspect(f, func(x ast.Node) bool {
+			call, ok := x.(*ast.CallExpr)
+			if !ok {
+				return true
+			}
+			if cal := Callee(info, call); cal == nil || cal.Origin() != fobj.Origin() || pidx >= len(call.Args) {
+				return true
+			}
+			sites++
+			if !c.hasFlagGuard(pkg, call, call.Args[pidx], descType, flag, depth+1) {
+				all = false
+			}
+			return true
+		})
+	}
+	return sites > 0 && all
+}
+
 // GuardsDeep returns the branch facts known at n, including those known at the
 // position of every enclosing function literal in its parent function (the
 // literal is created on that path; captured variables are assumed not to be
@@ -147,14 +239,8 @@ func ruleR021(c *Ctx) {
 				c.Undecided(key, call.Pos(), "descriptor %s is not a variable", nodeStr(c.Fset, desc))
 				return true
 			}
-			guarded := c.hasGuard(call, true, func(e ast.Expr) bool {
-				s, ok := e.(*ast.SelectorExpr)
-				if !ok || s.Sel.Name != "IsPure" {
-					return false
-				}
-				k, ok := exprKey(info, s.X)
-				return ok && k == dk
-			})
+			_ = dk
+			guarded := c.hasFlagGuard(fg, call, desc, "", "IsPure", 0)
 			if guarded {
 				c.OK(key, call.Pos(), "the %s implementation is executed at Generate time only under %s.IsPure", kind, nodeStr(c.Fset, desc))
 			} else {
@@ -242,10 +328,7 @@ func ruleR022(c *Ctx) {
 			}
 			n++
 			key := fmt.Sprintf("%s#regroup[%d]", fname, n)
-			comm := c.hasGuard(cl, true, func(e ast.Expr) bool {
-				s, ok := e.(*ast.SelectorExpr)
-				return ok && s.Sel.Name == "IsCommutative" && isNamed(info.TypeOf(s.X), modPath+"/funcGen", "Operator")
-			})
+			comm := c.hasFlagGuard(fg, cl, nil, "Operator", "IsCommutative", 0)
 			same := c.hasGuard(cl, true, func(e ast.Expr) bool {
 				be, ok := e.(*ast.BinaryExpr)
 				if !ok || be.Op != token.EQL {
